@@ -1,0 +1,14 @@
+//go:build verif
+
+package route
+
+// VerifOnSetTable, when set, is called by SetTable right after the new table
+// has been stored. It exists only in builds with the "verif" tag and is used
+// by the external verification harness to record every installed table.
+var VerifOnSetTable func(Table)
+
+func verifOnSetTable(t Table) {
+	if f := VerifOnSetTable; f != nil {
+		f(t)
+	}
+}
